@@ -113,17 +113,17 @@ Proof.
     change (35 =? 35) with true. cbn iota. rewrite Hhd. reflexivity.
 Qed.
 
-(* a comment that starts with '#' is written as a directive; and the OWNED comment of line_bufs()
-   is never the comment that was written: it keeps the '#' *)
+(* a comment that starts with '#' is written as a directive *)
 Theorem gff_comment_refuted :
   gff_classify (fun _ => None) (gff_write_comment [35; 120]) = GDirective [120] None.
 Proof. reflexivity. Qed.
 
-Theorem gff_comment_linebuf_refuted : forall prs s, hd 0 s <> 35 ->
-  gff_line_buf prs (gff_write_comment s) = BComment (35 :: s) /\
-  gff_write_comment (35 :: s) = 35 :: 35 :: s.
+(* the owned comment of line_bufs() is the comment that was written (repaired in /repo 0b526eb;
+   before, it kept the '#', so that writing it back gave a directive line) *)
+Theorem gff_comment_linebuf_roundtrip : forall prs s, hd 0 s <> 35 ->
+  gff_line_buf prs (gff_write_comment s) = BComment s.
 Proof.
-  intros prs s Hhd. split; [|reflexivity]. unfold gff_line_buf, gff_write_comment.
+  intros prs s Hhd. unfold gff_line_buf, gff_write_comment.
   assert (Hk : gff_line_kind (35 :: s) = KComment).
   { destruct s as [|c t]; [reflexivity|]. cbn [hd] in Hhd. unfold gff_line_kind.
     apply N.eqb_neq in Hhd. change (35 =? 35) with true. cbn iota. now rewrite Hhd. }
@@ -218,4 +218,172 @@ Proof.
   { destruct lf; [lia|]. cbn [cut_line] in E. destruct (b =? 10); [discriminate|].
     destruct (cut_line t) as [[l' lf'] r'] eqn:E'. injection E as E1 E2 E3. subst. cbn [length] in *. lia. }
   rewrite (IH r f2) by lia. reflexivity.
+Qed.
+
+(* ---- whole files: written lines one after the other, then any text ---- *)
+Definition good_line (l : list N) : Prop :=
+  ~ In 10 l /\ strip_cr l = l /\ forallb is_ws l = false.
+
+Definition lines_text (ls : list (list N)) : list N := concat (map (fun l => l ++ [10]) ls).
+
+Lemma gff_read_lines_cons : forall line rest f, good_line line ->
+  (length (line ++ 10%N :: rest) < S f)%nat ->
+  gff_read_lines (S f) (line ++ 10 :: rest) = line :: gff_read_lines f rest.
+Proof.
+  intros line rest f (H10 & Hcr & Hb) Hf. cbn [gff_read_lines].
+  destruct (line ++ 10 :: rest) as [|b t] eqn:E; [destruct line; discriminate|]. rewrite <- E.
+  rewrite gff_raw_line_app by exact H10. rewrite Hcr, Hb. reflexivity.
+Qed.
+
+Lemma gff_read_lines_prefix : forall ls tail f, Forall good_line ls ->
+  (length (lines_text ls ++ tail) < f)%nat ->
+  gff_read_lines f (lines_text ls ++ tail) = ls ++ gff_read_lines f tail.
+Proof.
+  induction ls as [|l t IH]; intros tail f Hg Hf; [reflexivity|].
+  inversion Hg as [|l' t' Hl Ht]; subst.
+  unfold lines_text in *. cbn [map concat] in *. rewrite <- !app_assoc in *. cbn [app] in *.
+  destruct f as [|f]; [lia|].
+  rewrite gff_read_lines_cons by assumption. cbn [app]. f_equal.
+  rewrite app_length in Hf. cbn [length] in Hf.
+  rewrite IH by (assumption || lia). f_equal.
+  apply gff_read_lines_fuel; rewrite app_length in Hf; lia.
+Qed.
+
+Theorem gff_file_lines_prefix : forall prs ls tail, Forall good_line ls ->
+  gff_file_line_bufs prs (lines_text ls ++ tail)
+  = map (gff_line_buf prs) ls ++ gff_file_line_bufs prs tail
+  /\ gff_file_lines prs (lines_text ls ++ tail)
+  = map (gff_classify prs) ls ++ gff_file_lines prs tail.
+Proof.
+  intros prs ls tail Hg. unfold gff_file_line_bufs, gff_file_lines.
+  rewrite gff_read_lines_prefix by (assumption || lia). rewrite !map_app.
+  assert (Hfu : gff_read_lines (S (length (lines_text ls ++ tail))) tail
+                = gff_read_lines (S (length tail)) tail)
+    by (apply gff_read_lines_fuel; rewrite ?app_length; lia).
+  rewrite Hfu. split; reflexivity.
+Qed.
+
+(* the items of a GFF3 file as the writer takes them *)
+Inductive gitem := IRecord (r : feature) | IDirective (d : directive) | IComment (s : list N).
+
+Definition item_line (fmt : N -> list N) (it : gitem) : res (list N) :=
+  match it with
+  | IRecord r => gff_write fmt r
+  | IDirective d => gff_write_directive d
+  | IComment s => Ok (gff_write_comment s)
+  end.
+
+Definition item_ok (fmt : N -> list N) (prs : list N -> option N) (it : gitem) : Prop :=
+  match it with
+  | IRecord r => gff_wf fmt prs r
+  | IDirective d => directive_ok d
+  | IComment s => ~ In 10 s /\ strip_cr s = s /\ hd 0 s <> 35
+  end.
+
+(* what line_bufs() yields for it: the record as the lazy reader sees it (sequence id still
+   encoded, see c18_gff_record_readback), the directive with its value as text, the comment *)
+Definition item_buf (it : gitem) : gline_buf :=
+  match it with
+  | IRecord r => BRecord (owned_of_lazy (gff_expected r))
+  | IDirective d => BDirective (d_key d) (directive_text_value d)
+  | IComment s => BComment s
+  end.
+
+Lemma item_line_good : forall fmt prs it l, item_ok fmt prs it -> item_line fmt it = Ok l ->
+  good_line l /\ gff_line_buf prs l = item_buf it.
+Proof.
+  intros fmt prs it l Hok Hl. destruct it as [r|d|s]; cbn [item_ok item_line item_buf] in *.
+  - destruct (gff_record_line_classified fmt prs r l [] Hok Hl) as (Hraw & Hb & Hc).
+    pose proof Hok as (Hs & _).
+    destruct (gff_record_line_kind fmt r l Hs Hl) as [Hk _].
+    assert (H10 : ~ In 10 l).
+    { intro Hin. unfold gff_raw_line in Hraw.
+      destruct (cut_line (l ++ [10])) as [[a lf] b] eqn:E.
+      apply in_split in Hin. destruct Hin as (l1 & l2 & El).
+      (* the first LF of l would end the line earlier *)
+      assert (Hex : exists p q, l = p ++ 10 :: q /\ ~ In 10 p).
+      { clear - El. subst l. induction l1 as [|x xs IHx].
+        - exists [], l2. split; [reflexivity|tauto].
+        - destruct (N.eq_dec x 10) as [Ex|Ex].
+          + subst x. exists [], (xs ++ 10 :: l2). split; [reflexivity|tauto].
+          + destruct IHx as (p & q & Epq & Hp). exists (x :: p), q. split.
+            * cbn [app]. now rewrite Epq.
+            * intros [E'|E']; [congruence|tauto]. }
+      destruct Hex as (p & q & Epq & Hp). rewrite Epq in E. rewrite <- app_assoc in E. cbn [app] in E.
+      rewrite cut_line_app in E by exact Hp. injection E as E1 E2 E3. subst a lf b.
+      injection Hraw as Hr1 Hr2. destruct q; discriminate. }
+    split.
+    + repeat split; [exact H10| |exact Hb].
+      rewrite gff_raw_line_app in Hraw by exact H10. now injection Hraw as Hr.
+    + unfold gff_line_buf. rewrite Hk. unfold gff_classify in Hc. rewrite Hk in Hc.
+      injection Hc as Hc. now rewrite Hc.
+  - destruct (gff_directive_roundtrip prs d l [] Hok Hl) as (Hraw & Hb & _ & Hbuf).
+    assert (H10 : ~ In 10 l).
+    { destruct Hok as [Hk Hv]. unfold gff_write_directive in Hl. unfold directive_text_value in Hv.
+      assert (K10 : ~ In 10 (d_key d)) by (apply no_ws_avoid; [exact Hk|reflexivity]).
+      destruct (d_value d) as [v|].
+      - destruct (dvalue_text (d_key d) v) as [t|] eqn:Et; [|discriminate]. injection Hl as Hl. subst l.
+        destruct (Hv t eq_refl) as [T10 _].
+        intros [E|[E|Hin]]; try discriminate. apply in_app_or in Hin.
+        destruct Hin as [Hin|[E|Hin]]; [now apply K10|discriminate|now apply T10].
+      - injection Hl as Hl. subst l. intros [E|[E|Hin]]; try discriminate. now apply K10. }
+    split; [|exact Hbuf]. repeat split; [exact H10| |exact Hb].
+    rewrite gff_raw_line_app in Hraw by exact H10. now injection Hraw as Hr.
+  - injection Hl as Hl. subst l. destruct Hok as (H10 & Hcr & Hhd).
+    destruct (gff_comment_roundtrip prs s [] H10 Hcr Hhd) as (Hraw & Hb & _).
+    assert (H10' : ~ In 10 (gff_write_comment s)) by (intros [E|Hin]; [discriminate|now apply H10]).
+    split; [|now apply gff_comment_linebuf_roundtrip].
+    unfold good_line. split; [exact H10'|split; [|exact Hb]].
+    rewrite gff_raw_line_app in Hraw by exact H10'. now injection Hraw as Hr.
+Qed.
+
+(* a whole written GFF3 file (records, directives, comments in any order) followed by ANY text:
+   line_bufs() yields the items in order, then whatever the rest yields *)
+Theorem gff_file_roundtrip : forall fmt prs items ls tail,
+  Forall2 (fun it l => item_ok fmt prs it /\ item_line fmt it = Ok l) items ls ->
+  gff_file_line_bufs prs (lines_text ls ++ tail) = map item_buf items ++ gff_file_line_bufs prs tail.
+Proof.
+  intros fmt prs items ls tail H.
+  assert (Hg : Forall good_line ls /\ map (gff_line_buf prs) ls = map item_buf items).
+  { induction H as [|it l its ls' [Hok Hl] Hrest [IH1 IH2]]; [split; [constructor|reflexivity]|].
+    destruct (item_line_good fmt prs it l Hok Hl) as [Hgl Hbuf].
+    split; [constructor; assumption|]. cbn [map]. now rewrite Hbuf, IH2. }
+  destruct Hg as [Hg Hm]. destruct (gff_file_lines_prefix prs ls tail Hg) as [Hb _].
+  now rewrite Hb, Hm.
+Qed.
+
+(* record_bufs(): the records of the file up to the ##FASTA directive, whatever follows it *)
+Definition not_fasta (b : gline_buf) : Prop :=
+  match b with BDirective k _ => bytes_eqb k fasta_key = false | _ => True end.
+Definition buf_records (ls : list gline_buf) : list (res feature) :=
+  flat_map (fun b => match b with BRecord r => [r] | _ => [] end) ls.
+
+Lemma gff_record_bufs_fasta : forall pre v post, Forall not_fasta pre ->
+  gff_record_bufs (pre ++ BDirective fasta_key v :: post) = buf_records pre.
+Proof.
+  induction pre as [|b t IH]; intros v post H.
+  - reflexivity.
+  - inversion H as [|b' t' Hb Ht]; subst. cbn [app gff_record_bufs buf_records flat_map].
+    destruct b as [k v'|s|r]; cbn [not_fasta] in Hb.
+    + rewrite Hb. cbn [app]. now apply IH.
+    + cbn [app]. now apply IH.
+    + cbn [app]. f_equal. now apply IH.
+Qed.
+
+Definition fasta_line : list N := 35 :: 35 :: fasta_key.
+
+Theorem gff_record_bufs_stop_at_fasta : forall fmt prs items ls tail,
+  Forall2 (fun it l => item_ok fmt prs it /\ item_line fmt it = Ok l) items ls ->
+  Forall (fun it => not_fasta (item_buf it)) items ->
+  gff_record_bufs (gff_file_line_bufs prs (lines_text ls ++ fasta_line ++ 10 :: tail))
+  = buf_records (map item_buf items).
+Proof.
+  intros fmt prs items ls tail H Hnf.
+  rewrite (gff_file_roundtrip fmt prs items ls _ H).
+  assert (Hf : good_line fasta_line) by (repeat split; intro Hin; vm_compute in Hin; intuition discriminate).
+  pose proof (gff_file_lines_prefix prs [fasta_line] tail (Forall_cons _ Hf (Forall_nil _))) as [Hb _].
+  unfold lines_text in Hb. cbn [map concat] in Hb. rewrite app_nil_r, <- app_assoc in Hb. cbn [app] in Hb.
+  rewrite Hb. cbn [map app].
+  change (gff_line_buf prs fasta_line) with (BDirective fasta_key None).
+  apply gff_record_bufs_fasta. now apply Forall_map.
 Qed.
